@@ -88,7 +88,18 @@ def judge(kind, layout, faults, persistent, tag, hook=None):
         # outside the claim: with -f an argument whose lstat fails counts as nonexistent (os.path.lexists), silently
         return rt.ok()
     inj = '+'.join('%s=%s' % (n, errno.errorcode.get(e, e)) for (_, n, e) in hook.injected[:2])
-    flabel = tag if tag.startswith('one-cause') else 'fault:' + '+'.join(n for (_, n, _) in hook.injected[:2])
+
+    def opname(idx, n):
+        # a failed lstat of a mount point is its own kind of fault: os.path.ismount answers False, the volume of the
+        # argument is misjudged and a candidate on ANOTHER device is taken for one on the same device
+        try:
+            op = m.oplog[idx]
+            if n == 'lstat' and len(op) > 1 and op[1] in ('/v', '/v/', '/'):
+                return 'lstat-of-mount-point'
+        except Exception:
+            pass
+        return n
+    flabel = tag if tag.startswith('one-cause') else 'fault:' + '+'.join(opname(i, n) for (i, n, _) in hook.injected[:2])
     x = c01.oracle([before, r, after], 'x', src, 'entry', flabel)
     if x and x != 'twin-reached':
         key, _, detail = x.partition(' :: ')
@@ -96,7 +107,7 @@ def judge(kind, layout, faults, persistent, tag, hook=None):
         if x and x != 'twin-reached':
             return x
     if r['exc']:
-        return rt.fail('C17:traceback:%s:fault:%s' % (r['exc'].split(':')[0], '+'.join(n for (_, n, _) in hook.injected[:2])),
+        return rt.fail('C17:traceback:%s:fault:%s' % (r['exc'].split(':')[0], '+'.join(opname(i, n) for (i, n, _) in hook.injected[:2])),
                        '%s [faults injected: %s; %s]' % (r['exc'], inj, label))
     trashed = scen.sub(after, src) is None
     if trashed and r['exit'] != 0:
